@@ -412,6 +412,7 @@ func runC19(e *emitter, tier string, seed uint64) {
 		return
 	}
 	c19SlowReader(e)
+	c19Burst(e)
 	c19Stress(e, tier)
 	// the witness of the repaired defect and small hand-written churn schedules
 	for _, s := range [][]string{
@@ -713,4 +714,52 @@ func c19Stress(e *emitter, tier string) {
 		}
 	}
 	e.emit("stress", "stress", hx(status), fmt.Sprint(sent), fmt.Sprint(missing))
+}
+
+// c19Burst: several reloads with the SAME type and data, back to back and a little apart (a text update followed by a Go
+// update of the same change): every connected client receives every one of them.
+func c19Burst(e *emitter) {
+	if !e.mine("burst") {
+		return
+	}
+	c19Current = nil
+	h := sse.New()
+	ctx, cancel := context.WithCancel(context.Background())
+	defer cancel()
+	clients := []*recWriter{{hdr: http.Header{}}, {hdr: http.Header{}}, {hdr: http.Header{}}}
+	var wg sync.WaitGroup
+	for _, w := range clients {
+		wg.Add(1)
+		go func(w *recWriter) {
+			defer wg.Done()
+			h.ServeHTTP(w, httptest.NewRequest("GET", "/", nil).WithContext(ctx))
+		}(w)
+	}
+	time.Sleep(100 * time.Millisecond)
+	sent := 0
+	for i := 0; i < 4; i++ {
+		h.Send("message", "reload")
+		sent++
+	}
+	time.Sleep(120 * time.Millisecond)
+	h.Send("message", "reload")
+	sent++
+	time.Sleep(120 * time.Millisecond)
+	h.Send("message", "reload")
+	sent++
+	waitFor(func() bool {
+		for _, w := range clients {
+			if len(w.got()) < sent {
+				return false
+			}
+		}
+		return true
+	}, 2*time.Second)
+	var got []string
+	for _, w := range clients {
+		got = append(got, fmt.Sprint(len(w.got())))
+	}
+	cancel()
+	wg.Wait()
+	e.emit("burst", "burst", fmt.Sprint(sent), strings.Join(got, ","))
 }
